@@ -127,6 +127,8 @@ structure Fields (t : Gen.Tbs) (a : Gen.AlgId) (r : X509.Tbs) : Prop where
   serial : r.serialContent = intBytes t.serial ∧ decInt r.serialContent = some t.serial
   sigAlg : r.sigAlg.oid = a.oid ∧ r.sigAlg.params = a.params
   issuer : decName r.issuer = some t.issuer
+  issuerTlv : Gen.nameTlv t.issuer = .ok r.issuer
+  subjectTlv : Gen.nameTlv t.subject = .ok r.subject
   notBefore : r.notBefore = t.notBefore
   notAfter : r.notAfter = t.notAfter
   subject : decName r.subject = some t.subject
@@ -250,6 +252,7 @@ theorem decTbs_tbsTlv (t : Gen.Tbs) (v : Tlv) (h : Gen.tbsTlv t = .ok v) (ht : T
                   exact { version := h1, serial := ⟨h2, by rw [h2]; exact NegInt.decInt_intBytes _⟩,
                           sigAlg := by rw [h3]; exact ⟨hsaOid, hsaPar⟩,
                           issuer := by rw [h4]; exact decName_nameTlv _ _ hiss ht.issuer,
+                          issuerTlv := by rw [h4]; exact hiss, subjectTlv := by rw [h7]; exact hsubj,
                           notBefore := h5, notAfter := h6,
                           subject := by rw [h7]; exact decName_nameTlv _ _ hsubj ht.subject,
                           spkiAlg := by rw [h8]; exact ⟨hspOid, hspPar⟩, spkiBits := h9, issuerUid := h10, subjectUid := h11, extensions := h12 }
